@@ -2,6 +2,7 @@
 
 stdin: JSON list of jobs {"id", "mode": "sse"|"ndjson", "bytes": [0..255, ...], "ctype": Content-Type or null,
                           "chunkings": [[cut, ...], ...]}
+   or  {"id", "kind": "long", "L": {"mode","pre","fill","m","post","reps"}, "chunkings": [{"cuts": [...]}, ...]} (see run_long)
    or  {"id", "kind": "pair", "streams": [{"mode","bytes","helper"} x 2], "runs": [{"c1","c2","sched"}, ...]} (see run_pair)
 A chunking is the sorted list of cut positions (a cut c splits between byte c and byte c+1); [] is the unsplit stream.
 For every chunking the stream is served as `httpx.Response(200, content=<async iterator over the chunks>)` to
@@ -16,6 +17,8 @@ absent optionals as [-1] / -1, NDJSON values as the code points of their canonic
 from __future__ import annotations
 
 import asyncio
+import hashlib
+import itertools
 import json
 import sys
 from typing import Any
@@ -218,10 +221,112 @@ async def run_pair(job: dict) -> dict:
     return out
 
 
+# ---------------------------------------------------------------------------------------------
+# long streams (StreamCore.tla "Long streams"): bytes = (pre + fill * m + post) * reps, realistic chunkings.
+# Outputs are deduplicated on the raw Python values and only the distinct ones are encoded - losslessly and
+# deterministically - as run-length text ([[code point, count], ...]) and periodic item sequences ({"period", "n"}).
+
+
+def rle(seq) -> list[list[int]]:
+    out: list[list[int]] = []
+    for v, g in itertools.groupby(seq):
+        out.append([v, sum(1 for _ in g)])
+    return out
+
+
+def rle_text(v: Any) -> list[list[int]]:
+    if v is None:
+        return [[-1, 1]]
+    if not isinstance(v, str):
+        v = "!" + type(v).__name__ + ":" + repr(v)
+    return rle(map(ord, v))
+
+
+def periodic(items: list) -> dict:
+    n = len(items)
+    for p in range(1, min(64, n) + 1):
+        if items[p:] == items[: n - p]:
+            return {"period": items[:p], "n": n}
+    return {"period": items, "n": n}
+
+
+def raw(dec: str, item: Any) -> Any:
+    if dec == "iter_sse":
+        r = getattr(item, "retry", None)
+        t = lambda v: v if v is None or isinstance(v, str) else "!" + type(v).__name__ + ":" + repr(v)  # noqa: E731
+        return (t(getattr(item, "data", None)), t(getattr(item, "event", None)), t(getattr(item, "id", None)), r if isinstance(r, int) and not isinstance(r, bool) and -2 <= r <= INT_CAP else (-1 if r is None else -2))
+    if dec == "iter_ndjson":
+        return json.dumps(item, ensure_ascii=False, separators=(",", ":"))
+    if dec == "iter_bytes":
+        return bytes(item) if isinstance(item, (bytes, bytearray)) else b"!" + type(item).__name__.encode()
+    return item if isinstance(item, str) else "!" + type(item).__name__ + ":" + repr(item)
+
+
+BIG = 4000  # runs; an output whose encoding is larger is passed on truncated and flagged (it cannot be the expected one,
+#             whose encoding has a period of a few items with a few runs each), its identity is kept by the digest
+
+
+def encode_long(dec: str, items: list, err: str) -> dict:
+    digest = hashlib.sha1(repr((items, err)).encode("utf-8", "backslashreplace")).hexdigest()
+    if dec == "iter_bytes":
+        per = periodic(rle(b"".join(items)))
+        size = len(per["period"])
+        cut = lambda pr: pr[:64]  # noqa: E731
+    elif dec == "iter_sse":
+        per = periodic([{"data": rle_text(d), "event": rle_text(e), "id": rle_text(i), "retry": r} for d, e, i, r in items])
+        size = sum(len(x["data"]) + len(x["event"]) + len(x["id"]) for x in per["period"])
+        cut = lambda pr: [{"data": x["data"][:32], "event": x["event"][:32], "id": x["id"][:32], "retry": x["retry"]} for x in pr[:8]]  # noqa: E731
+    else:
+        per = periodic([rle_text(x) for x in items])
+        size = sum(len(x) for x in per["period"])
+        cut = lambda pr: [x[:32] for x in pr[:8]]  # noqa: E731
+    big = size > BIG
+    if big:
+        per = {"period": cut(per["period"]), "n": per["n"]}
+    return {"items": per, "err": err, "big": big, "digest": digest}
+
+
+async def run_long(job: dict) -> dict:
+    L = job["L"]
+    data = (bytes(L["pre"]) + bytes([L["fill"]]) * L["m"] + bytes(L["post"])) * L["reps"]
+    out: dict = {"id": job["id"], "dec": [], "absent": [], "runs": 0, "total": len(data)}
+    for dec in DECODERS[L["mode"]]:
+        fn = getattr(sh, dec, None)
+        if fn is None:
+            out["absent"].append(dec)
+            continue
+        outs: list[dict] = []
+        keys: dict[Any, int] = {}
+        idx: list[int] = []
+        for ch in job["chunkings"]:
+            items: list[Any] = []
+            err = "none"
+            resp = httpx.Response(200, content=chunks_of(split(data, ch["cuts"])))
+            try:
+                async for it in fn(resp):
+                    items.append(raw(dec, it))
+            except Exception as e:  # noqa: BLE001
+                err = type(e).__name__
+            finally:
+                try:
+                    await resp.aclose()
+                except Exception:  # noqa: BLE001
+                    pass
+            k = (b"".join(items) if dec == "iter_bytes" else tuple(items), err)
+            if k not in keys:
+                outs.append(encode_long(dec, items, err))
+                keys[k] = len(outs)
+            idx.append(keys[k])
+            out["runs"] += 1
+        out["dec"].append({"name": dec, "outs": outs, "idx": idx})
+    return out
+
+
 async def amain() -> None:
     jobs = json.load(sys.stdin)
     for job in jobs:
-        r = await (run_pair(job) if job.get("kind") == "pair" else run_job(job))
+        kind = job.get("kind")
+        r = await (run_pair(job) if kind == "pair" else run_long(job) if kind == "long" else run_job(job))
         print(json.dumps(r), flush=True)
 
 
